@@ -10,6 +10,7 @@ CONSTANTS
   MaxRecvs = 9999
   Faults = 999
   Oracle <- TrOracle
+  LateBytes = TRUE
   Report = TRUE
   Dev = {}
 CONSTRAINT HW
